@@ -63,6 +63,7 @@ type relayStream struct {
 	respCh   chan *signaling.SessionResponse
 	fail     chan struct{}
 	failOnce sync.Once
+	peer     string // the remote peer named by the stream's Init ("" until the Init arrived)
 }
 
 // failNow makes the stream fail (once: the client may not have replaced it yet when the relay
@@ -71,6 +72,10 @@ func (r *relayStream) failNow() { r.failOnce.Do(func() { close(r.fail) }) }
 
 func (r *relayStream) Context() context.Context { return r.ctx }
 func (r *relayStream) Send(m *signaling.SessionRequest) error {
+	if reqKind(m) == "init" && r.w.takeFail("init") {
+		// the write of the Init request fails: the client must give the stream up and re-connect
+		return io.ErrClosedPipe
+	}
 	// a gated write: the request is on its way but the write has not returned (back-pressure);
 	// the relay sees it only when the gate opens
 	if g := r.w.takeGate(reqKind(m), m); g != nil {
@@ -201,15 +206,110 @@ type fakeRelay struct{ w *world }
 
 func (f *fakeRelay) SRPCClient() srpc.Client { return nil }
 func (f *fakeRelay) Listen(ctx context.Context, in *signaling.ListenRequest) (signaling.SRPCSignaling_ListenClient, error) {
-	return nil, io.EOF
+	return f.w.listen(ctx)
 }
 func (f *fakeRelay) Session(ctx context.Context) (signaling.SRPCSignaling_SessionClient, error) {
+	if f.w.takeFail("session") {
+		// the relay cannot be reached: opening the Session RPC fails
+		return nil, io.ErrUnexpectedEOF
+	}
 	r := &relayStream{w: f.w, ctx: ctx, respCh: make(chan *signaling.SessionResponse, 256), fail: make(chan struct{})}
 	f.w.mtx.Lock()
 	r.ix = len(f.w.streams)
 	f.w.streams = append(f.w.streams, r)
 	f.w.mtx.Unlock()
 	return r, nil
+}
+
+// takeFail consumes one scripted failure of the given kind ("session": opening the RPC fails;
+// "init": the write of the Init request fails; "listen": opening the Listen RPC fails).
+func (w *world) takeFail(kind string) bool {
+	w.mtx.Lock()
+	defer w.mtx.Unlock()
+	if w.fails[kind] > 0 {
+		w.fails[kind]--
+		w.failed[kind]++
+		return true
+	}
+	return false
+}
+
+// lstream is one scripted Listen stream of the relay.
+type lstream struct {
+	ctx    context.Context
+	respCh chan *signaling.ListenResponse
+	fail   chan struct{}
+}
+
+func (l *lstream) Context() context.Context { return l.ctx }
+func (l *lstream) Recv() (*signaling.ListenResponse, error) {
+	// what was written before the failure is delivered before the failure
+	select {
+	case m := <-l.respCh:
+		return m, nil
+	default:
+	}
+	select {
+	case m := <-l.respCh:
+		return m, nil
+	case <-l.fail:
+		select {
+		case m := <-l.respCh:
+			return m, nil
+		default:
+		}
+		return nil, io.ErrUnexpectedEOF
+	case <-l.ctx.Done():
+		return nil, context.Canceled
+	}
+}
+func (l *lstream) RecvTo(m *signaling.ListenResponse) error {
+	x, err := l.Recv()
+	if err != nil {
+		return err
+	}
+	data, err := x.MarshalVT()
+	if err != nil {
+		return err
+	}
+	return m.UnmarshalVT(data)
+}
+func (l *lstream) MsgSend(srpc.Message) error { return nil }
+func (l *lstream) MsgRecv(srpc.Message) error { return io.EOF }
+func (l *lstream) CloseSend() error           { return nil }
+func (l *lstream) Close() error               { return nil }
+
+// listen is the relay's Listen RPC: refused unless the scenario scripts it.
+func (w *world) listen(ctx context.Context) (signaling.SRPCSignaling_ListenClient, error) {
+	w.mtx.Lock()
+	scripted := w.listenOn
+	w.mtx.Unlock()
+	if !scripted {
+		return nil, io.EOF
+	}
+	if w.takeFail("listen") {
+		return nil, io.ErrUnexpectedEOF
+	}
+	l := &lstream{ctx: ctx, respCh: make(chan *signaling.ListenResponse, 64), fail: make(chan struct{})}
+	w.mtx.Lock()
+	w.lstreams = append(w.lstreams, l)
+	w.mtx.Unlock()
+	return l, nil
+}
+
+func (w *world) lstreamsSnapshot() []*lstream {
+	w.mtx.Lock()
+	defer w.mtx.Unlock()
+	return append([]*lstream(nil), w.lstreams...)
+}
+
+func (w *world) curListen() *lstream {
+	w.mtx.Lock()
+	defer w.mtx.Unlock()
+	if len(w.lstreams) == 0 {
+		return nil
+	}
+	return w.lstreams[len(w.lstreams)-1]
 }
 
 // injected is one RecvMsg the scripted relay delivered, with the HARNESS's own verdict about it.
@@ -245,8 +345,14 @@ type world struct {
 	acksIssued map[uint64]bool
 	sent       map[uint64]bool // seqnos the client transmitted
 	wire       []wireReq
-	gate       *wgate // armed gate on the client's writes (nil: writes return at once)
-	dropped    int    // stale-epoch SendMsg requests the honest relay dropped
+	gate       *wgate         // armed gate on the client's writes (nil: writes return at once)
+	dropped    int            // stale-epoch SendMsg requests the honest relay dropped
+	peerB      string         // peer id string of the remote peer of the session under test
+	fails      map[string]int // scripted failures still to come (session / init / listen)
+	failed     map[string]int // scripted failures that happened
+	listenOn   bool           // the relay serves the Listen RPC (scripted streams)
+	lstreams   []*lstream
+	wireOther  []wireReq // requests on sessions with peers other than B
 }
 
 // note appends a line of the ENGINE's own observations (what a Recv call returned) to the trace.
@@ -310,13 +416,28 @@ func (w *world) lines() []string {
 	return out
 }
 
+// cur is the current stream of the session with B (streams are attributed by their Init).
 func (w *world) cur() *relayStream {
 	w.mtx.Lock()
 	defer w.mtx.Unlock()
-	if len(w.streams) == 0 {
-		return nil
+	for i := len(w.streams) - 1; i >= 0; i-- {
+		if w.streams[i].peer == w.peerB {
+			return w.streams[i]
+		}
 	}
-	return w.streams[len(w.streams)-1]
+	return nil
+}
+
+// curOf is the current stream of the session with the given remote peer.
+func (w *world) curOf(peer string) *relayStream {
+	w.mtx.Lock()
+	defer w.mtx.Unlock()
+	for i := len(w.streams) - 1; i >= 0; i-- {
+		if w.streams[i].peer == peer {
+			return w.streams[i]
+		}
+	}
+	return nil
 }
 
 func (w *world) respond(r *relayStream, m *signaling.SessionResponse) {
@@ -340,6 +461,9 @@ func (w *world) onRequest(r *relayStream, m *signaling.SessionRequest) {
 	switch b := m.GetBody().(type) {
 	case *signaling.SessionRequest_Init:
 		wr.kind = "init"
+		w.mtx.Lock()
+		r.peer = b.Init.GetPeerId()
+		w.mtx.Unlock()
 	case *signaling.SessionRequest_SendMsg:
 		wr.kind, wr.seqno, wr.msg = "send", b.SendMsg.GetSeqno(), b.SendMsg
 	case *signaling.SessionRequest_AckMsg:
@@ -348,8 +472,16 @@ func (w *world) onRequest(r *relayStream, m *signaling.SessionRequest) {
 		wr.kind, wr.seqno = "clear", b.ClearMsg
 	}
 	w.mtx.Lock()
-	w.wire = append(w.wire, wr)
+	other := r.peer != w.peerB
+	if other {
+		w.wireOther = append(w.wireOther, wr)
+	} else {
+		w.wire = append(w.wire, wr)
+	}
 	w.mtx.Unlock()
+	if other {
+		return // a session with another peer: recorded apart, no automatic behaviour
+	}
 	if b, ok := m.GetBody().(*signaling.SessionRequest_SendMsg); ok {
 		q := b.SendMsg.GetSeqno()
 		w.mtx.Lock()
@@ -517,7 +649,12 @@ var forgeries = []string{"altered-copy", "tampered", "claimed-sender", "third-pa
 	"other-context", "other-context-keyed", "empty-signature", "unsigned", "nil-body", "empty-data", "no-sender"}
 
 func (e *engine) scenario(kind string, n int) {
-	w := &world{e: e, inj: map[uint64]*injected{}, acksIssued: map[uint64]bool{}, sent: map[uint64]bool{}, epoch: 1}
+	w := &world{e: e, inj: map[uint64]*injected{}, acksIssued: map[uint64]bool{}, sent: map[uint64]bool{}, epoch: 1, peerB: e.kB.IDStr, fails: map[string]int{}, failed: map[string]int{}}
+	if kind == "open-failure" {
+		// the relay cannot be reached at first, then the Init write fails once
+		w.fails["session"] = 1 + e.rng.Intn(3)
+		w.fails["init"] = 1
+	}
 	signaling_rpc_client.VerifSetSink(w.sink)
 	defer signaling_rpc_client.VerifSetSink(nil)
 	cl, err := signaling_rpc_client.NewClient(e.le, &fakeRelay{w: w}, e.kA.SK, &backoff.Backoff{BackoffKind: backoff.BackoffKind_BackoffKind_CONSTANT, Constant: &backoff.Constant{Interval: 1}})
@@ -531,6 +668,34 @@ func (e *engine) scenario(kind string, n int) {
 	w.mtx.Lock()
 	w.tkr = ref.VerifTrackerID()
 	w.mtx.Unlock()
+	// the application's listen handler: every call is recorded (scenario listen-handler)
+	var lmtx sync.Mutex
+	var lcalls []string
+	if kind == "listen-handler" {
+		w.listenOn = true
+		w.fails["listen"] = 1 + e.rng.Intn(2)
+		cl.SetListenHandler(func(_ context.Context, reset, added bool, pid string) {
+			lmtx.Lock()
+			switch {
+			case reset:
+				lcalls = append(lcalls, "reset")
+				if pid != "" || added {
+					lcalls = append(lcalls, "reset-with-peer:"+pid)
+				}
+			case added:
+				lcalls = append(lcalls, "add:"+pid)
+			default:
+				lcalls = append(lcalls, "del:"+pid)
+			}
+			lmtx.Unlock()
+		})
+	}
+	// a second session of the same client, with the third party C (scenario two-sessions)
+	var refC *signaling_rpc_client.ClientPeerRef
+	if kind == "two-sessions" {
+		refC = cl.AddPeerRef(e.kC.IDStr)
+		defer refC.Release()
+	}
 	cl.SetContext(ctx)
 	sess := signaling_rpc_client.NewSessionWithRef(ref) // the signaling.SignalPeerSession the transports use
 	var actions []string
@@ -870,6 +1035,12 @@ func (e *engine) scenario(kind string, n int) {
 	// Recv waiting: they must be handed over
 	var mustRecvs []uint64
 	var harnessErr string
+	var sentinelKey, sentinelMon string // a sentinel's own (model independent) expectation that failed
+	sentinel := func(k, m string) {
+		if sentinelMon == "" {
+			sentinelKey, sentinelMon = k, m
+		}
+	}
 	const hookWait = 15 * time.Second
 	expectHook := func(from int, ev, want string) {
 		if !w.waitHook(from, hookWait, hookIs(ev, want)) && harnessErr == "" {
@@ -1315,7 +1486,9 @@ func (e *engine) scenario(kind string, n int) {
 					sc()
 					expectHook(mk, "sendcancel", fmt.Sprint(q))
 					waitDone(sr, hookWait)
-					if !w.waitHook(mk, hookWait, func(l string) bool { return strings.HasPrefix(l, "ev=txloop ") && kvOf(l, "cancelmsg") == fmt.Sprint(q) }) {
+					if !w.waitHook(mk, hookWait, func(l string) bool {
+						return strings.HasPrefix(l, "ev=txloop ") && kvOf(l, "cancelmsg") == fmt.Sprint(q)
+					}) {
 						bad = true
 					}
 					w.quiesce(300 * time.Microsecond)
@@ -1354,6 +1527,347 @@ func (e *engine) scenario(kind string, n int) {
 				break
 			}
 		}
+	case "clear-other":
+		// C21 (client side of "acks and clears only affect the message they name"): a delivered
+		// message survives withdrawals and acknowledgements naming OTHER messages (and an
+		// acknowledgement naming itself: acks concern outgoing messages); a Send in flight is not
+		// completed by acknowledgements of other messages nor disturbed by a withdrawal naming it
+		// (withdrawals concern incoming messages) and completes on its own acknowledgement.
+		progress = true
+		setAuto("")
+		open()
+		w.quiesce(300 * time.Microsecond)
+		for i := 0; i < n; i++ {
+			from := w.mark()
+			inject("authentic")
+			q := nextInj
+			expectHook(from, "recvmsg", fmt.Sprint(q))
+			var did []string
+			for _, k := range []uint64{q + 1, q - 1, uint64(1 + e.rng.Intn(4))} {
+				did = append(did, disturb("clear", k))
+			}
+			did = append(did, disturb("ack", q))
+			w.quiesce(300 * time.Microsecond)
+			mustRecvs = append(mustRecvs, q)
+			res := startRecvMode("live", 5*time.Second)
+			select {
+			case <-res:
+			case <-time.After(6 * time.Second):
+			}
+			act(fmt.Sprintf("relay delivers message %d, client accepted it; %s; then the application calls Recv", q, strings.Join(did, "; ")))
+			// the sender's half
+			wl := wireLen()
+			sr := startSendOpt(10*time.Second, true)
+			sq := newOnWire(wl, hookWait)
+			if sq == 0 {
+				harnessErr = "the client never transmitted its message"
+				break
+			}
+			did = nil
+			for _, k := range []uint64{sq + 1, sq + 2} {
+				did = append(did, disturb("ack", k))
+			}
+			if sq > 1 {
+				did = append(did, disturb("ack", sq-1))
+			}
+			did = append(did, disturb("clear", sq))
+			w.quiesce(300 * time.Microsecond)
+			rmtx.Lock()
+			early := sr.done
+			rmtx.Unlock()
+			if early {
+				sentinel("sigcli.ackclear:"+kind, fmt.Sprintf("Send of message %d returned although the relay had only acknowledged OTHER messages (%s)", sq, strings.Join(did, "; ")))
+			}
+			did = append(did, disturb("ack", sq))
+			ok := waitDone(sr, 12*time.Second)
+			act(fmt.Sprintf("Send(%d) is on the wire; %s; Send completed: %v", sq, strings.Join(did, "; "), ok))
+			w.quiesce(300 * time.Microsecond)
+		}
+	case "open-failure":
+		// C23 "client stream failure and retry", failure to OPEN: the Session RPC cannot be opened
+		// (k times), then the write of the Init request fails; the client must keep retrying; once the
+		// relay is reachable the session opens and sends / deliveries are served
+		progress = true
+		setAuto("ack")
+		gaveUp := func(when string) {
+			w.mtx.Lock()
+			fs, fi := w.failed["session"], w.failed["init"]
+			w.mtx.Unlock()
+			sentinel("sigcli.progress:"+kind, fmt.Sprintf("%s: opening the Session RPC had failed %d times and the Init write %d times; the relay is reachable again but the client has no session stream (it stopped retrying)", when, fs, fi))
+		}
+		if w.cur() == nil {
+			gaveUp("at start")
+			break
+		}
+		open()
+		for i := 0; i < n; i++ {
+			if w.cur() == nil {
+				break
+			}
+			startSendOpt(10*time.Second, true)
+			from := w.mark()
+			inject("authentic")
+			mustRecvs = append(mustRecvs, nextInj)
+			expectHook(from, "recvmsg", fmt.Sprint(nextInj))
+			select {
+			case <-startRecvMode("live", 5*time.Second):
+			case <-time.After(6 * time.Second):
+			}
+			w.quiesce(300 * time.Microsecond)
+			if i == 0 {
+				// and again in mid-session: the stream fails, re-opening fails twice, the Init write once
+				w.mtx.Lock()
+				w.fails["session"], w.fails["init"] = 2, 1
+				w.mtx.Unlock()
+				old := w.cur()
+				old.failNow()
+				freshStream(old)
+				for t0 := time.Now(); time.Since(t0) < 10*time.Second; time.Sleep(200 * time.Microsecond) {
+					w.mtx.Lock()
+					left := w.fails["session"] + w.fails["init"]
+					w.mtx.Unlock()
+					if left == 0 && w.cur() != nil && w.cur() != old {
+						break
+					}
+				}
+				if c := w.cur(); c == nil || c == old {
+					gaveUp("after a stream failure in mid-session")
+					break
+				}
+				open()
+			}
+		}
+		w.mtx.Lock()
+		act(fmt.Sprintf("opening the Session RPC failed %d times and the Init write %d times (at start and after a stream failure in mid-session); then the relay is honest: sends and deliveries", w.failed["session"], w.failed["init"]))
+		if (w.failed["session"] < 3 || w.failed["init"] < 2) && sentinelMon == "" {
+			harnessErr = "the scripted open failures were not all consumed"
+		}
+		w.mtx.Unlock()
+	case "two-sessions":
+		// C19 "sender == session peer" with two sessions of one client (B and C): a message signed by
+		// C presented on the session with B, and one signed by B presented on the session with C, must
+		// be refused; each session hands over only its own peer's messages; the attribution accessors
+		// name the right peers.
+		w.auto = ""
+		open()
+		for i := 0; i < 100000 && w.curOf(e.kC.IDStr) == nil; i++ {
+			time.Sleep(100 * time.Microsecond)
+		}
+		sC := w.curOf(e.kC.IDStr)
+		if sC == nil {
+			harnessErr = "the session with C was never opened"
+			break
+		}
+		w.respond(sC, &signaling.SessionResponse{Body: &signaling.SessionResponse_Opened{Opened: 1}})
+		if ref.GetRemotePeerID() != e.kB.ID || ref.GetLocalPeerID() != e.kA.ID || sess.GetRemotePeerID() != e.kB.ID || sess.GetLocalPeerID() != e.kA.ID ||
+			refC.GetRemotePeerID() != e.kC.ID || refC.GetLocalPeerID() != e.kA.ID {
+			sentinel("sigcli.attribution:"+kind, fmt.Sprintf("the attribution accessors of the sessions name the wrong peers: session with B says remote=%s local=%s, session with C says remote=%s local=%s (A=%s B=%s C=%s)",
+				ref.GetRemotePeerID(), ref.GetLocalPeerID(), refC.GetRemotePeerID(), refC.GetLocalPeerID(), e.kA.IDStr, e.kB.IDStr, e.kC.IDStr))
+		}
+		var cGot []*signaling.SessionMsg
+		var cWG sync.WaitGroup
+		recvC := func(d time.Duration) {
+			cWG.Add(1)
+			apps.Add(1)
+			go func() {
+				defer apps.Done()
+				defer cWG.Done()
+				rctx, rc := context.WithTimeout(ctx, d)
+				defer rc()
+				if m, err := refC.Recv(rctx); err == nil && m != nil {
+					rmtx.Lock()
+					cGot = append(cGot, m)
+					rmtx.Unlock()
+				}
+			}()
+		}
+		cq := uint64(5000)
+		var cAuthentic []uint64
+		for i := 0; i < n; i++ {
+			cq++
+			payload := append(e.rng.Bytes(6), byte(cq), byte(cq>>8))
+			switch e.rng.Intn(3) {
+			case 0: // C's own message on C's session
+				cAuthentic = append(cAuthentic, cq)
+				w.respond(w.curOf(e.kC.IDStr), &signaling.SessionResponse{Body: &signaling.SessionResponse_RecvMsg{RecvMsg: e.mkMsg(e.kC, cq, payload)}})
+				recvC(300 * time.Millisecond)
+				act("relay delivers an authentic message of C on the session with C")
+			case 1: // B's message presented on C's session: re-attribution
+				old := w.curOf(e.kC.IDStr)
+				w.respond(old, &signaling.SessionResponse{Body: &signaling.SessionResponse_RecvMsg{RecvMsg: e.mkMsg(e.kB, cq, payload)}})
+				recvC(100 * time.Millisecond)
+				w.quiesce(300 * time.Microsecond)
+				for t0 := time.Now(); w.curOf(e.kC.IDStr) == old && time.Since(t0) < 3*time.Second; {
+					time.Sleep(100 * time.Microsecond)
+				}
+				w.respond(w.curOf(e.kC.IDStr), &signaling.SessionResponse{Body: &signaling.SessionResponse_Opened{Opened: uint64(2 + i)}})
+				act("relay presents an authentic message of B on the session with C")
+			case 2: // C's message presented on B's session
+				old := w.cur()
+				startRecv(100 * time.Millisecond)
+				inject("third-party")
+				w.quiesce(300 * time.Microsecond)
+				freshStream(old)
+				open()
+				act("relay presents an authentic message of C on the session with B")
+			}
+			if e.rng.Intn(2) == 0 {
+				inject("authentic")
+				startRecv(300 * time.Millisecond)
+			}
+			w.quiesce(300 * time.Microsecond)
+		}
+		cWG.Wait()
+		rmtx.Lock()
+		for _, m := range cGot {
+			okq := false
+			for _, x := range cAuthentic {
+				okq = okq || x == m.GetSeqno()
+			}
+			if !sigoracle.AuthenticFrom(e.kC, m) || !okq {
+				sentinel("sigcli.recv:forged", fmt.Sprintf("the session with C handed the application a message (seqno %d, sender field %s) that is not an authentic message of C delivered on that session", m.GetSeqno(), sigoracle.From(m)))
+			}
+		}
+		rmtx.Unlock()
+	case "listen-handler":
+		// C24 (client side): the Listen RPC feeds the application's handler: every SetPeer / ClearPeer
+		// with a peer id is handed over in order, a stream failure resets the list, the client
+		// re-opens the Listen RPC (also when opening it fails) and follows the new stream
+		var want []string
+		ids := []string{e.kB.IDStr, e.kC.IDStr, e.kA.IDStr}
+		for round := 0; round < n; round++ {
+			var l *lstream
+			for t0 := time.Now(); time.Since(t0) < 10*time.Second; time.Sleep(200 * time.Microsecond) {
+				if c := w.curListen(); c != nil && (round == 0 || len(w.lstreamsSnapshot()) > round) {
+					l = c
+					break
+				}
+			}
+			if l == nil {
+				harnessErr = "the client did not (re-)open the Listen RPC"
+				break
+			}
+			k := 2 + e.rng.Intn(5)
+			for j := 0; j < k; j++ {
+				id := ids[e.rng.Intn(len(ids))]
+				switch e.rng.Intn(5) {
+				case 0:
+					l.respCh <- &signaling.ListenResponse{Body: &signaling.ListenResponse_ClearPeer{ClearPeer: id}}
+					want = append(want, "del:"+id)
+				case 1: // empty ids and empty responses carry nothing
+					l.respCh <- &signaling.ListenResponse{Body: &signaling.ListenResponse_SetPeer{SetPeer: ""}}
+					l.respCh <- &signaling.ListenResponse{Body: &signaling.ListenResponse_ClearPeer{ClearPeer: ""}}
+					l.respCh <- &signaling.ListenResponse{}
+				default:
+					l.respCh <- &signaling.ListenResponse{Body: &signaling.ListenResponse_SetPeer{SetPeer: id}}
+					want = append(want, "add:"+id)
+				}
+			}
+			close(l.fail)
+			want = append(want, "reset")
+			act(fmt.Sprintf("listen stream %d: %d announcements / withdrawals, then the stream fails", round, k))
+		}
+		// wait (bounded, by observation) until the handler has seen everything
+		for t0 := time.Now(); time.Since(t0) < 10*time.Second; time.Sleep(200 * time.Microsecond) {
+			lmtx.Lock()
+			nn := len(lcalls)
+			lmtx.Unlock()
+			if nn >= len(want) {
+				break
+			}
+		}
+		w.quiesce(300 * time.Microsecond)
+		lmtx.Lock()
+		got := append([]string(nil), lcalls...)
+		lmtx.Unlock()
+		if len(got) > len(want) {
+			got = got[:len(want)+1]
+		}
+		short := func(l []string) string {
+			var o []string
+			for _, x := range l {
+				for i, k := range []*sigoracle.Key{e.kA, e.kB, e.kC} {
+					x = strings.Replace(x, k.IDStr, string(rune('A'+i)), 1)
+				}
+				o = append(o, x)
+			}
+			return strings.Join(o, " ")
+		}
+		if short(got) != short(want) && harnessErr == "" {
+			sentinel("sigcli.listen:"+kind, fmt.Sprintf("the listen handler was called with [%s] but the relay's Listen streams carried [%s] (every announcement / withdrawal with a peer id, in order; a reset when a stream ends)", short(got), short(want)))
+		}
+		w.mtx.Lock()
+		if w.failed["listen"] == 0 {
+			harnessErr = "opening the Listen RPC never failed"
+		}
+		w.mtx.Unlock()
+	case "controller-sessions":
+		// C24 (client side), the controller's handler of the Listen announcements
+		// (Controller.handlePeerWantsSession + session trackers): the peers towards which the client
+		// holds an automatically created session (a live Session stream naming that peer) must be
+		// exactly announcements minus withdrawals, a reset withdraws all, an id that is no peer id
+		// and the client's own id are ignored, repeated announcements are idempotent.
+		kD := sigoracle.NewKey(e.rng.Bytes(32))
+		ctl := signaling_rpc_client.VerifNewControllerWithClient(ctx, e.le, &signaling_rpc_client.Config{DisableListen: true}, cl)
+		names := map[string]string{e.kC.IDStr: "C", kD.IDStr: "D", e.kA.IDStr: "A(self)", "not-a-peer-id": "garbage", "": "empty"}
+		livePeers := func() string {
+			var out []string
+			for _, id := range []string{e.kC.IDStr, kD.IDStr, e.kA.IDStr} {
+				w.mtx.Lock()
+				live := false
+				for _, r := range w.streams {
+					if r.peer == id && r.ctx.Err() == nil {
+						live = true
+					}
+				}
+				w.mtx.Unlock()
+				if live {
+					out = append(out, names[id])
+				}
+			}
+			return strings.Join(out, " ")
+		}
+		want := map[string]bool{}
+		wantStr := func() string {
+			var out []string
+			for _, id := range []string{e.kC.IDStr, kD.IDStr} {
+				if want[id] {
+					out = append(out, names[id])
+				}
+			}
+			return strings.Join(out, " ")
+		}
+		script := []string{"add C", "add D", "add C", "del C", "add garbage", "add A", "reset", "add D", "del C", "add C", "del D", "add empty", "reset"}
+		for i := 0; i < n; i++ {
+			script = append(script, []string{"add C", "add D", "del C", "del D", "reset", "add A", "add garbage"}[e.rng.Intn(7)])
+		}
+		ids := map[string]string{"C": e.kC.IDStr, "D": kD.IDStr, "A": e.kA.IDStr, "garbage": "not-a-peer-id", "empty": ""}
+		for _, st := range script {
+			f := strings.Fields(st)
+			switch f[0] {
+			case "add":
+				ctl.VerifHandlePeerWantsSession(ctx, false, true, ids[f[1]])
+				if f[1] == "C" || f[1] == "D" {
+					want[ids[f[1]]] = true
+				}
+			case "del":
+				ctl.VerifHandlePeerWantsSession(ctx, false, false, ids[f[1]])
+				delete(want, ids[f[1]])
+			case "reset":
+				ctl.VerifHandlePeerWantsSession(ctx, true, false, "")
+				want = map[string]bool{}
+			}
+			// settle: the trackers open / close their Session streams asynchronously
+			for t0 := time.Now(); livePeers() != wantStr() && time.Since(t0) < 3*time.Second; {
+				w.quiesce(300 * time.Microsecond)
+			}
+			w.quiesce(300 * time.Microsecond)
+			if got := livePeers(); got != wantStr() {
+				sentinel("sigcli.listen-sessions:"+kind, fmt.Sprintf("after the announcements / withdrawals [%s] the peers with an announced, not withdrawn session request are [%s] but the client holds automatically created sessions (live Session streams) towards [%s]", strings.Join(script[:1+indexOf(script, st)], "; "), wantStr(), got))
+				break
+			}
+		}
+		act("controller listen handler: " + strings.Join(script, "; "))
 	case "altered-retransmission":
 		// an authentic message is delivered; the relay then presents the same signature and
 		// sender again with another payload (looks like the retransmission after a re-open)
@@ -1555,6 +2069,9 @@ func (e *engine) scenario(kind string, n int) {
 			}
 		}
 		// ---- model-independent monitors ----
+		if sentinelMon != "" {
+			set(3, sentinelKey, sentinelMon)
+		}
 		rmtx.Lock()
 		w.mtx.Lock()
 		// C19 on what ClientPeerRef.Recv returned: judged on the returned message itself with the stdlib
@@ -1787,6 +2304,16 @@ func truncN(s string, n int) string {
 	return s
 }
 
+// indexOf is the index of the first occurrence of x (by identity of position: scripts may repeat steps, the prefix shown is then the shortest).
+func indexOf(l []string, x string) int {
+	for i, y := range l {
+		if y == x {
+			return i
+		}
+	}
+	return len(l) - 1
+}
+
 func classOf(in *injected) string {
 	if in == nil {
 		return "?"
@@ -1796,11 +2323,27 @@ func classOf(in *injected) string {
 
 func (e *engine) run() {
 	e.rep.Rule = "the real signaling client against a scripted relay: honest (open, ack, deliver), re-open while a send is in flight (F11 sentinel), the sender's stream failing with a message in flight, a 1 ms Send followed by a served Send, ack racing the caller's cancellation followed by a never-acknowledged probe Send, an authentic message followed by its signature re-presented with another payload, every forgery class with the application waiting (third-party / tampered / altered-copy / claimed-sender / self-signed; hand-assembled: foreign key attached, victim key attached + foreign signature, other signing context, empty signature, unsigned, nil body, empty body, no sender), an authentic message with only its outer sequence number rewritten, malicious random schedules of all of these with unsolicited acks and clears, re-opens, closes, stream failures and concurrent Send (incl. short deadlines = cancel) and Recv calls (half of them through Session.Recv); Recv CALLERS of every kind (long-lived, already cancelled, past their deadline, cancelled concurrently with a delivery, polling with deadlines of a few microseconds) with every call's return value logged into the trace (recvret / recvend) and all calls awaited before the verdict; GATED WRITES: the client's write of a chosen request kind (send / ack / clear) is parked inside the stream's Send while the relay delivers Opened / Closed+Opened / Ack / Clear and waits by hook event until the client processed it, then released into an honest relay that drops stale-epoch requests (reopen-during-write, gated-writes), each followed by a probe Send and a probe delivery that must complete; every tracker critical section replayed on the Lean LTS with the harness's own verdict per message; wire requests compared with the main loop's decisions; acks on the wire and messages taken by Recv critical sections compared with what Recv calls RETURNED; distinct = distinct schedule"
-	e.rep.Require("trace.honest", "trace.reopen-in-flight", "trace.malicious", "trace.cancel-after-ack", "trace.altered-retransmission", "trace.forgery-classes", "trace.stream-failure-in-flight", "trace.cancel-then-send",
-		"trace.recv-cancelled", "trace.reopen-during-write", "trace.gated-writes")
 	for _, k := range []string{"events", "sends_ok", "delivered", "delivered_via_session", "wire_requests", "recv_calls", "recv_calls_returned_canceled", "stale_requests_dropped_by_honest_relay"} {
 		e.rep.Extra[k] = 0
 	}
+	if e.a.Prop == "C24" {
+		// C24, client side only: the consumer of the relay's announcements
+		e.rep.Rule = "client side of the Listen announcements: Client.SetListenHandler / executeListenRoutine against scripted Listen streams (opening fails first, announcements / withdrawals with and without ids, stream failures => reset and re-listen) and Controller.handlePeerWantsSession + session trackers (bus-less Controller, hook): live automatically created Session streams = announcements minus withdrawals"
+		e.rep.Require("trace.listen-handler", "trace.controller-sessions")
+		for i := 0; i < 3*e.a.Scale; i++ {
+			e.scenario("listen-handler", 2+e.rng.Intn(4))
+			e.scenario("controller-sessions", 4+e.rng.Intn(12))
+		}
+		return
+	}
+	e.rep.Require("trace.honest", "trace.reopen-in-flight", "trace.malicious", "trace.cancel-after-ack", "trace.altered-retransmission", "trace.forgery-classes", "trace.stream-failure-in-flight", "trace.cancel-then-send",
+		"trace.recv-cancelled", "trace.reopen-during-write", "trace.gated-writes")
+	e.rep.Require("trace.clear-other", "trace.open-failure", "trace.two-sessions", "trace.listen-handler", "trace.controller-sessions")
+	e.scenario("controller-sessions", 6)
+	e.scenario("clear-other", 2)
+	e.scenario("open-failure", 2)
+	e.scenario("two-sessions", 6)
+	e.scenario("listen-handler", 3)
 	e.scenario("reopen-during-write", 3)
 	e.scenario("recv-cancelled", 5)
 	e.scenario("gated-writes", 13)
@@ -1829,6 +2372,10 @@ func (e *engine) run() {
 			e.scenario("recv-cancelled", 3+e.rng.Intn(8))
 			e.scenario("reopen-during-write", 2+e.rng.Intn(5))
 			e.scenario("gated-writes", 5+e.rng.Intn(12))
+			e.scenario("clear-other", 1+e.rng.Intn(4))
+			e.scenario("open-failure", 1+e.rng.Intn(3))
+			e.scenario("two-sessions", 3+e.rng.Intn(8))
+			e.scenario("listen-handler", 1+e.rng.Intn(4))
 		}
 	}
 }
@@ -1845,7 +2392,7 @@ func main() {
 	e.kC = sigoracle.NewKey(e.rng.Bytes(32))
 	e.keys = []*sigoracle.Key{nil, e.kA, e.kB, e.kC}
 	switch a.Prop {
-	case "C19", "C21", "C23":
+	case "C19", "C21", "C23", "C24":
 		e.run()
 	default:
 		fmt.Println("unknown property", a.Prop)
